@@ -68,6 +68,15 @@ class Repo:
                 self.files[rel] = (src, tree)
                 self._walk(tree.body, rel, src, None)
 
+    def add_lemma_file(self, path):
+        """lemma functions (bodies are `pass`): their contracts are obligations over spec functions only"""
+        with open(path, encoding='utf-8') as f:
+            src = f.read()
+        tree = ast.parse(src)
+        rel = 'verif:' + os.path.basename(path)
+        self.files[rel] = (src, tree)
+        self._walk([n for n in tree.body if isinstance(n, ast.FunctionDef) and n.name.startswith('lemma_')], rel, src, None)
+
     def _walk(self, body, rel, src, cls):
         for node in body:
             if isinstance(node, (ast.FunctionDef,)):
